@@ -170,7 +170,7 @@ theorem nextFrame_strip (r : Rd) (s : Src) (cx : Ctx) :
               let r1 : Rd := ⟨st, sk, false, ex, co, mf, oc, hf, hdr.len, hdr.masked, hdr.mask, 0, false, {}⟩
               let r2 := { r1 with compressed := x.2.2 }
               match x.2.1 with
-              | some pe => (some x.1, some (.proto pe), r2, s1, cx)
+              | some pe => (some x.1, some (.proto pe), (⟨st, sk, false, ex, x.2.2, mf, oc, hf, hdr.len, mk, (if hdr.masked then hdr.mask else msk), (if hdr.masked then 0 else cp), false, {}⟩ : Rd), s1, cx)
               | none =>
                 if r2.fragmented && opIsControl x.1.op then
                   let (e, r3, s3) := r2.drainRaw s1 s1.fuel
@@ -190,7 +190,7 @@ theorem nextFrame_strip (r : Rd) (s : Src) (cx : Ctx) :
                 let r1 : Rd := ⟨st, sk, ck, ex, co, mf, oc, hf, hdr.len, hdr.masked, hdr.mask, 0, false, u8⟩
                 let r2 := { r1 with compressed := x.2.2 }
                 match x.2.1 with
-                | some pe => (some x.1, some (.proto pe), r2, s1, cx)
+                | some pe => (some x.1, some (.proto pe), (⟨st, sk, ck, ex, x.2.2, mf, oc, hf, hdr.len, mk, (if hdr.masked then hdr.mask else msk), (if hdr.masked then 0 else cp), uon, u8⟩ : Rd), s1, cx)
                 | none =>
                   if r2.fragmented && opIsControl x.1.op then
                     let (e, r3, s3) := r2.drainRaw s1 s1.fuel
